@@ -26,7 +26,14 @@ theorem authorize_ok_iff (cfg : EvalCfg) (tok : Token) (s : AuthState)
     (authorize cfg tok s).2 = .ok ↔
       AllChecksHold cfg tok s ∧
       FirstPolicyIs cfg (authorityScope cfg tok.authority s) s.policies .allow := by
-  sorry
+  obtain ⟨w, ids, hscope, hqp, hv, hmem⟩ := authorize_frag cfg tok s hf
+  have hnil : ids = [] ↔ AllChecksHold cfg tok s :=
+    (eq_nil_iff_no_failing hmem).trans (no_failing_iff cfg tok s)
+  rw [hv, ← hnil, ← firstPolicy_some_iff cfg w.facts _ hscope .allow s.policies hqp,
+    ← policyVerdict_ok_iff]
+  cases ids with
+  | nil => simp
+  | cons a as => simp
 
 /-- **Policy denial**: all checks hold and the first policy that holds is a deny policy. -/
 theorem authorize_denied_iff (cfg : EvalCfg) (tok : Token) (s : AuthState)
@@ -34,7 +41,14 @@ theorem authorize_denied_iff (cfg : EvalCfg) (tok : Token) (s : AuthState)
     (authorize cfg tok s).2 = .denied ↔
       AllChecksHold cfg tok s ∧
       FirstPolicyIs cfg (authorityScope cfg tok.authority s) s.policies .deny := by
-  sorry
+  obtain ⟨w, ids, hscope, hqp, hv, hmem⟩ := authorize_frag cfg tok s hf
+  have hnil : ids = [] ↔ AllChecksHold cfg tok s :=
+    (eq_nil_iff_no_failing hmem).trans (no_failing_iff cfg tok s)
+  rw [hv, ← hnil, ← firstPolicy_some_iff cfg w.facts _ hscope .deny s.policies hqp,
+    ← policyVerdict_denied_iff]
+  cases ids with
+  | nil => simp
+  | cons a as => simp
 
 /-- **No matching policy**: all checks hold and no policy holds. -/
 theorem authorize_nomatch_iff (cfg : EvalCfg) (tok : Token) (s : AuthState)
@@ -42,14 +56,32 @@ theorem authorize_nomatch_iff (cfg : EvalCfg) (tok : Token) (s : AuthState)
     (authorize cfg tok s).2 = .noMatch ↔
       AllChecksHold cfg tok s ∧
       ∀ p ∈ s.policies, ¬ PolicyHolds cfg (authorityScope cfg tok.authority s) p := by
-  sorry
+  obtain ⟨w, ids, hscope, hqp, hv, hmem⟩ := authorize_frag cfg tok s hf
+  have hnil : ids = [] ↔ AllChecksHold cfg tok s :=
+    (eq_nil_iff_no_failing hmem).trans (no_failing_iff cfg tok s)
+  rw [hv, ← hnil, ← firstPolicy_none_iff cfg w.facts _ hscope s.policies hqp,
+    ← policyVerdict_noMatch_iff]
+  cases ids with
+  | nil => simp
+  | cons a as => simp
 
 /-- **Check failure takes precedence**: a verification failure is reported exactly when
 some check does not hold — whatever the policies say. -/
 theorem authorize_checksFailed_iff (cfg : EvalCfg) (tok : Token) (s : AuthState)
     (hf : WithinFragment cfg tok s) :
     (∃ ids, (authorize cfg tok s).2 = .checksFailed ids) ↔ ¬ AllChecksHold cfg tok s := by
-  sorry
+  obtain ⟨w, ids, hscope, hqp, hv, hmem⟩ := authorize_frag cfg tok s hf
+  have hnil : ids = [] ↔ AllChecksHold cfg tok s :=
+    (eq_nil_iff_no_failing hmem).trans (no_failing_iff cfg tok s)
+  rw [hv, ← hnil]
+  cases ids with
+  | nil =>
+    simp only [List.isEmpty_nil, if_true, not_true, iff_false]
+    rintro ⟨ids', h⟩
+    exact policyVerdict_ne_checksFailed _ _ h
+  | cons a as =>
+    simp only [List.isEmpty_cons, Bool.false_eq_true, if_false]
+    exact ⟨fun _ => by simp, fun _ => ⟨_, rfl⟩⟩
 
 /-- The reported identifiers are exactly the failing checks: authorizer check `i` is
 reported iff it does not hold in the authority scope, and likewise for block checks. -/
@@ -63,12 +95,51 @@ theorem failed_ids_exact (cfg : EvalCfg) (tok : Token) (s : AuthState)
     (∀ k i, CheckId.block (k + 1) i ∈ ids ↔
         ∃ b c, tok.blocks[k]? = some b ∧ b.checks[i]? = some c ∧
           ¬ CheckHolds cfg (blockScope cfg tok.authority s b) c) := by
-  sorry
+  obtain ⟨w, ids', hscope, hqp, hv, hmem⟩ := authorize_frag cfg tok s hf
+  rw [hv] at h
+  have hids : ids = ids' := by
+    cases ids' with
+    | nil =>
+      simp only [List.isEmpty_nil, if_true] at h
+      exact absurd h (policyVerdict_ne_checksFailed _ _)
+    | cons a as =>
+      simp only [List.isEmpty_cons, Bool.false_eq_true, if_false, Verdict.checksFailed.injEq] at h
+      exact h.symm
+  subst hids
+  refine ⟨fun i => ?_, fun i => ?_, fun k i => ?_⟩
+  · rw [hmem]
+    constructor
+    · rintro (⟨j, c, hj, hid, hn⟩ | ⟨j, c, hj, hid, hn⟩ | ⟨k, b, j, c, hk, hj, hid, hn⟩)
+      · cases hid; exact ⟨c, hj, hn⟩
+      · cases hid
+      · cases hid
+    · rintro ⟨c, hj, hn⟩
+      exact Or.inl ⟨i, c, hj, rfl, hn⟩
+  · rw [hmem]
+    constructor
+    · rintro (⟨j, c, hj, hid, hn⟩ | ⟨j, c, hj, hid, hn⟩ | ⟨k, b, j, c, hk, hj, hid, hn⟩)
+      · cases hid
+      · cases hid; exact ⟨c, hj, hn⟩
+      · cases hid
+    · rintro ⟨c, hj, hn⟩
+      exact Or.inr (Or.inl ⟨i, c, hj, rfl, hn⟩)
+  · rw [hmem]
+    constructor
+    · rintro (⟨j, c, hj, hid, hn⟩ | ⟨j, c, hj, hid, hn⟩ | ⟨k', b, j, c, hk, hj, hid, hn⟩)
+      · cases hid
+      · cases hid
+      · cases hid; exact ⟨b, c, hk, hj, hn⟩
+    · rintro ⟨b, c, hk, hj, hn⟩
+      exact Or.inr (Or.inr ⟨k, b, i, c, hk, hj, rfl, hn⟩)
 
 /-- In the fragment the verdict is never a run error. -/
 theorem fragment_no_run_error (cfg : EvalCfg) (tok : Token) (s : AuthState)
     (hf : WithinFragment cfg tok s) (e : RunErr) : (authorize cfg tok s).2 ≠ .runError e := by
-  sorry
+  obtain ⟨w, ids, hscope, hqp, hv, hmem⟩ := authorize_frag cfg tok s hf
+  rw [hv]
+  cases ids with
+  | nil => simpa using policyVerdict_ne_runError _ e
+  | cons a as => simp
 
 /-! Non-vacuity: one instance per verdict, including a failed check *with* a matching
 allow policy (precedence). All are inside the fragment (no run or query error occurs). -/
